@@ -1,16 +1,138 @@
 (* C13 — property theorems only. *)
-From Coq Require Import List NArith ZArith Bool.
+From Coq Require Import List NArith ZArith Bool String.
 Import ListNotations.
-From VF Require Import common.Lin C13.Model C13.Proofs C13.Corr.
+From VF Require Import common.Lin C13.Model C13.Proofs C13.Corr C13.Table.
+From VF Require C13.TableAsIs.
 Local Open Scope N_scope.
 
-(* Every component whose operations are each ONE atomic step of a sequential machine (one critical section of one
-   mutex around every access to the shared state — the obligation [lock_table_ok] checks that on the source) is
-   linearizable: for EVERY number of goroutines, EVERY list of operations per goroutine, EVERY schedule (also unfair
-   and unfinished ones), from EVERY initial state, the recorded invoke/return trace has a sequential order, legal for
-   the machine, that contains every returned operation with the result it returned and respects real time. *)
+(* FULL STATEMENT, for the modelled layer.  Every component whose operations are each ONE atomic step of a sequential
+   machine (one critical section of one mutex around every access to the shared state — that this is how the source
+   is written is obligation [lock_table_ok]/[atomic_regions_ok] below, recomputed from /repo on every run) is
+   linearizable: for EVERY number of goroutines, EVERY list of operations per goroutine, EVERY schedule (unfair and
+   unfinished ones included), from EVERY initial state, the invoke/return trace has a sequential order that is legal
+   for the machine, contains every operation that returned with the result it returned, contains only invoked
+   operations with their own arguments, once each, and puts an operation that returned before another was invoked
+   first. *)
 Theorem atomic_component_linearizable :
   forall (S op out : Type) (sstep : S -> op -> S * out) (s0 : S) (threads : list (list op)) (sched : list nat),
     lin_strong S op out sstep s0 (tr (exec (atomic_prog sstep) (start s0 threads) sched)).
 Proof. exact atomic_lin. Qed.
 Print Assumptions atomic_component_linearizable.
+
+(* ... instantiated, component by component, with the sequential machines the correspondence replays *)
+Theorem store_stack_linearizable : forall (s : stack) threads sched,
+  lin_strong _ _ _ (step (prov_of s)) (init (prov_of s))
+    (tr (exec (atomic_prog (step (prov_of s))) (start (init (prov_of s)) threads) sched)).
+Proof. intros. apply atomic_lin. Qed.
+Print Assumptions store_stack_linearizable.
+
+Theorem key_manager_linearizable : forall threads sched,
+  lin_strong _ _ _ kms_step [] (tr (exec (atomic_prog kms_step) (start [] threads) sched)).
+Proof. intros. apply atomic_lin. Qed.
+Print Assumptions key_manager_linearizable.
+
+Theorem session_manager_linearizable : forall threads sched,
+  lin_strong _ _ _ sess_step [] (tr (exec (atomic_prog sess_step) (start [] threads) sched)).
+Proof. intros. apply atomic_lin. Qed.
+Print Assumptions session_manager_linearizable.
+
+Theorem action_registry_linearizable : forall threads sched,
+  lin_strong _ _ _ reg_step 0 (tr (exec (atomic_prog reg_step) (start 0 threads) sched)).
+Proof. intros. apply atomic_lin. Qed.
+Print Assumptions action_registry_linearizable.
+
+Theorem inbox_linearizable : forall threads sched,
+  lin_strong _ _ _ inbox_step [] (tr (exec (atomic_prog inbox_step) (start [] threads) sched)).
+Proof. intros. apply atomic_lin. Qed.
+Print Assumptions inbox_linearizable.
+
+(* ---------- the source follows the discipline the model assumes: over the table regenerated from /repo ---------- *)
+(* THE obligations that break when an edit removes or narrows a lock. *)
+Theorem lock_table_ok : covers = true.
+Proof. vm_compute. reflexivity. Qed.
+Print Assumptions lock_table_ok.
+
+Theorem atomic_regions_ok : atomic_ok = true.
+Proof. vm_compute. reflexivity. Qed.
+Print Assumptions atomic_regions_ok.
+
+Theorem lock_order_acyclic : lock_order_ok = true.
+Proof. vm_compute. reflexivity. Qed.
+Print Assumptions lock_order_acyclic.
+
+(* the tree as found (frozen table of 34f49d8): the same checks name the defects the -race harness confirmed *)
+Theorem lock_table_asis_refuted :
+  TableAsIs.uncovered = ["formattedstore.FormattedProvider.openStores"; "mem.Provider.dbs"; "mem.memStore.config"]%string /\
+  TableAsIs.not_atomic =
+    ["mem.memStore.Query"; "cachedstore.store.Put"; "cachedstore.store.Get"; "cachedstore.store.GetTags";
+     "cachedstore.store.GetBulk"; "cachedstore.store.Query"; "cachedstore.store.Delete"; "cachedstore.store.Batch";
+     "cachedstore.store.Flush"; "batchedstore.store.Get"; "batchedstore.store.GetTags"; "batchedstore.store.GetBulk";
+     "batchedstore.store.Query"; "batchedstore.store.Batch"; "localkms.LocalKMS.writeToStore"; "ws.getConnPool"]%string.
+Proof. vm_compute. split; reflexivity. Qed.
+Print Assumptions lock_table_asis_refuted.
+
+(* ---------- the multi-step programs of the code AS FOUND: refuted by a schedule ---------- *)
+(* cachedstore without a store lock: Put(1,1) between its two store calls, Put(1,5) whole; afterwards Get answers
+   from the cache (1) and GetBulk from the main store (5), for good: no order of the four operations explains it;
+   the same schedule on the one-step program (after fix 97d284c) has one. *)
+Definition c_threads : list (list op) := [[Put 1 1 []]; [Put 1 5 []]; [Get 1; GetBulk [1]]].
+Definition c_sched : list nat := [0;0;1;1;1;1;0;0;2;2;2;2;2;2;2;2]%nat.
+Theorem cached_asis_refuted :
+  let P := cached true (mem true) in
+  no_linearization (step P) out_eqb (init P)
+    (hist_of (tr (exec (cached_asis_prog (mem true)) (start (init P) c_threads) c_sched)) 4) = true /\
+  some_linearization (step P) out_eqb (init P)
+    (hist_of (tr (exec (atomic_prog (step P)) (start (init P) c_threads) c_sched)) 4) = true.
+Proof. vm_compute. split; reflexivity. Qed.
+Print Assumptions cached_asis_refuted.
+
+(* batchedstore Batch enqueued (and, limit 1, flushed) element by element: GetBulk sees the first element only *)
+Definition b_threads : list (list op) := [[Batch [(1,2,[]);(2,2,[])]]; [GetBulk [1;2]]].
+Definition b_sched : list nat := [0;0;1;1;1;0;0;0]%nat.
+Theorem batched_batch_asis_refuted :
+  let P := batched 1 (mem true) in
+  no_linearization (step P) out_eqb (init P)
+    (hist_of (tr (exec (batched_asis_prog 1 (mem true)) (start (init P) b_threads) b_sched)) 2) = true /\
+  some_linearization (step P) out_eqb (init P)
+    (hist_of (tr (exec (atomic_prog (step P)) (start (init P) b_threads) b_sched)) 2) = true.
+Proof. vm_compute. split; reflexivity. Qed.
+Print Assumptions batched_batch_asis_refuted.
+
+(* mem Query, one read-locked scan per criterion: a Put between the scans makes "b && a" return an entry that
+   carried b only before and a only after *)
+Definition m_threads : list (list op) := [[Put 2 1 [(2,2)]; Query [(2,0);(1,0)]]; [Put 2 2 [(1,1)]]].
+Definition m_sched : list nat := [0;0;0;0;0;1;1;1;0;0;0]%nat.
+Theorem mem_query_asis_refuted :
+  no_linearization (mem_step true) out_eqb []
+    (hist_of (tr (exec mem_asis_prog (start [] m_threads) m_sched)) 3) = true /\
+  some_linearization (mem_step true) out_eqb []
+    (hist_of (tr (exec (atomic_prog (mem_step true)) (start [] m_threads) m_sched)) 3) = true.
+Proof. vm_compute. split; reflexivity. Qed.
+Print Assumptions mem_query_asis_refuted.
+
+(* localkms import with a requested id: Get then Put with nothing held: both imports of id 1 succeed *)
+Definition k_threads : list (list kop) := [[KImport 1 1]; [KImport 1 2]].
+Definition k_sched : list nat := [0;0;1;1;1;1;0;0]%nat.
+Theorem kms_import_asis_refuted :
+  no_linearization kms_step kout_eqb []
+    (hist_of (tr (exec kms_asis_prog (start [] k_threads) k_sched)) 2) = true /\
+  some_linearization kms_step kout_eqb []
+    (hist_of (tr (exec (atomic_prog kms_step) (start [] k_threads) k_sched)) 2) = true.
+Proof. vm_compute. split; reflexivity. Qed.
+Print Assumptions kms_import_asis_refuted.
+
+(* ---------- non-vacuity ---------- *)
+(* a run of the one-step cachedstore with three goroutines in which operations overlap and the linearization order
+   differs from the invocation order; the certificate check accepts exactly the order of the linearization points *)
+Example atomic_nonvacuous :
+  let P := cached true (mem true) in
+  let c := exec (atomic_prog (step P)) (start (init P) c_threads) [0;1;1;2;1;0;0;2;2;2;2;2]%nat in
+  lins op out (tr c) = [1; 0; 2; 3]%nat /\
+  valid_linearization (step P) out_eqb (init P) (hist_of (tr c) 4) [1; 0; 2; 3]%nat = true /\
+  valid_linearization (step P) out_eqb (init P) (hist_of (tr c) 4) [0; 1; 2; 3]%nat = false.
+Proof. vm_compute. repeat split. Qed.
+
+Example table_nonvacuous :
+  (List.length Gen_C13.table >= 100)%nat /\ (List.length shared_fields >= 12)%nat /\
+  (List.length modelled_atomic = 38)%nat /\ (List.length all_locks >= 15)%nat.
+Proof. vm_compute. repeat split; repeat constructor. Qed.
